@@ -265,6 +265,7 @@ def h_hessian(h, order, nvar, shape, xaxis, yaxis):
 
 def _make_potential(h, nfields, deg):
     f, dexact, scale = _polyN(h, nfields + 1, deg)
+    seen_T = []   # every temperature the potential is evaluated at
 
     class Pot(EP.EffectivePotential):
         fieldCount = nfields
@@ -273,6 +274,7 @@ def _make_potential(h, nfields, deg):
         def evaluate(self, fields, temperature):
             fields = np.asarray(fields)
             T = np.asarray(temperature)
+            seen_T.extend(np.ravel(T))
             X = np.empty(np.broadcast_shapes(fields.shape[:-1], T.shape) + (nfields + 1,),
                          dtype=object if h.symbolic else float)
             X[..., :-1] = fields
@@ -280,6 +282,7 @@ def _make_potential(h, nfields, deg):
             return f(X)
 
     pot = Pot()
+    pot.seen_T = seen_T
     return pot, dexact, scale
 
 
@@ -313,8 +316,14 @@ def h_veff(h, nfields, which, npoints, per_point_T=False):
         # one temperature per field point (the way WallGo calls it); bounded below by 0
         Ts = np.array([T] + [h.real(f"T{i}", 0.0, 50) for i in range(1, npoints)],
                       dtype=object if h.symbolic else float)
+        del pot.seen_T[:]
         res = np.asarray(pot.derivT(fields, Ts))
         h.prove("shape", Cond(b=res.shape == (npoints,)))
+        # the temperature derivative is bounded below by T = 0 (potentials need not be defined for
+        # T < 0): one-sided stencils next to the bound, never an evaluation at negative temperature
+        from symx.core import AND as _AND, ge as _ge
+        h.prove("derivT never evaluates the potential at a negative temperature",
+                _AND(*[_ge(t, 0.0) for t in pot.seen_T]) if pot.seen_T else Cond(b=False))
         for i in range(npoints):
             h.prove_eq("exact", res[i], dexact(list(pts[i]) + [Ts[i]], (nv - 1,)), conc_rtol=1e-5)
             h.observe("dVdT", res[i])
